@@ -135,11 +135,12 @@ theorem flow_documented :
   ("rotate", ["[anglesisNoneornotnp.any(angles)]return input_mask", "[not(anglesisNoneornotnp.any(angles))]return cryomap.rotate(input_mask,rotation_angles=angles)"]),
   ("write_out", ["[output_nameisnotNone]cryomap.write(input_mask,output_name,data_type=np.single);return None", "[not(output_nameisnotNone)]return None"])] := by rfl
 
-/-- whole-body dumps of `spherical_mask`, `get_correct_format` and the array branch of `cryomap.read` (which copies
-the caller's array: the filters never alias their argument) -/
+/-- whole-body dumps of `spherical_mask`, `get_correct_format` (a plain number may also be a numpy scalar, `np.integer` / `np.floating`,
+since the fix "get_correct_format accepts numpy scalars"; the filters hand it the shape tuple, so nothing changes for them) and the array
+branch of `cryomap.read` (which copies the caller's array: the filters never alias their argument) -/
 theorem bodies_documented :
     bodyDumps = [("spherical_mask", ["0:mask_size=get_correct_format(mask_size)", "0:center=get_correct_format(center,reference_size=mask_size)", "0:ifradiusisNone:", "1:radius=np.amin(mask_size)//2", "0:radius=preprocess_params(radius,gaussian,gaussian_outwards)", "0:L0,L1,L2=np.mgrid[0:mask_size[0]:1,0:mask_size[1]:1,0:mask_size[2]:1]", "0:L3=np.sqrt((L0-center[0])**2+(L1-center[1])**2+(L2-center[2])**2)", "0:L3[L3>radius]=0", "0:L3[L3>0]=1", "0:L3[center[0],center[1],center[2]]=1", "0:L3=postprocess(L3,gaussian,np.asarray([0,0,0]),output_name)", "0:returnL3"]),
-  ("get_correct_format", ["0:defL0(L1):", "1:ifisinstance(L1,(tuple,list,np.ndarray)):", "2:iflen(L1)==3:", "3:returnnp.asarray(L1).astype(int)", "2:eliflen(L1)==1:", "3:returnnp.full((3,),L1).astype(int)", "2:else:", "3:raiseValueError", "1:elifisinstance(L1,(float,int)):", "2:returnnp.full((3,),L1).astype(int)", "0:ifinput_valueisnotNone:", "1:L2=L0(input_value)", "0:elifreference_sizeisnotNone:", "1:L3=L0(reference_size)", "1:L2=L3//2", "0:else:", "1:raiseValueError", "0:returnL2"]),
+  ("get_correct_format", ["0:defL0(L1):", "1:ifisinstance(L1,(tuple,list,np.ndarray)):", "2:iflen(L1)==3:", "3:returnnp.asarray(L1).astype(int)", "2:eliflen(L1)==1:", "3:returnnp.full((3,),L1).astype(int)", "2:else:", "3:raiseValueError", "1:elifisinstance(L1,(float,int,np.integer,np.floating)):", "2:returnnp.full((3,),L1).astype(int)", "0:ifinput_valueisnotNone:", "1:L2=L0(input_value)", "0:elifreference_sizeisnotNone:", "1:L3=L0(reference_size)", "1:L2=L3//2", "0:else:", "1:raiseValueError", "0:returnL2"]),
   ("read[ndarray]", ["[not(isinstance(input_map,str))&isinstance(input_map,np.ndarray)&data_typeisnotNone]return np.array(np.array(input_map),copy=True).astype(data_type)", "[not(isinstance(input_map,str))&isinstance(input_map,np.ndarray)&not(data_typeisnotNone)]return np.array(np.array(input_map),copy=True)"])] := by rfl
 
 /-! ### the integer frequency of a DFT bin -/
